@@ -272,3 +272,7 @@ def run(ck, prog, ctx):
     ck.rule("CTOR", "in a struct literal, the field `f` of a function with a parameter `f` derives from that parameter (DESIGN 3.9)")
     from engines import check_ctors
     check_ctors(ck, "CTOR", prog, r"^src/ontology/comparison\.rs$", floor=2)
+    # the gene / OMIM / ORPHA variants of one operation: none does something its siblings do not
+    ck.rule("KSIB", "in a group of >= 3 kind variants of one operation, no member alone has an extra selecting / truncating / error-swallowing / text-changing step or calls a crate function no sibling calls")
+    from engines import check_kind_siblings
+    check_kind_siblings(ck, "KSIB", prog, r"^src/ontology/comparison\.rs$", floor=1)
